@@ -164,8 +164,12 @@ static void ArReset()
 	ApplyRule::m_Rules.clear();
 }
 
+static bool l_ArTouched = false;   // only clean up after cases that used this module (other modules own their objects)
+
 static void ArCaseEnd()
 {
+	if (!l_ArTouched) return;
+	l_ArTouched = false;
 	ArReset();
 	for (auto& g : l_Globals) ScriptGlobal::GetGlobals()->Remove(g);
 	l_Globals.clear(); l_Inventory.clear(); l_Rules.clear(); l_InvServices.clear(); l_Groups.clear();
@@ -198,6 +202,7 @@ static bool ArLoad(const std::string& text)
 
 VOP(ar_glob)
 {
+	l_ArTouched = true;
 	ArParser p(a.str("v"));
 	ScriptGlobal::Set(a.str("n"), p.value());
 	l_Globals.push_back(a.str("n"));
@@ -205,6 +210,7 @@ VOP(ar_glob)
 
 VOP(ar_host)
 {
+	l_ArTouched = true;
 	std::ostringstream o;
 	o << "object Host " << ArParser::Quote(HexDec(a.str("n"))) << " {\n  check_command = \"arcc\"\n";
 	if (a.has("vars")) o << "  vars = " << ArDsl(a.str("vars")) << "\n";
@@ -222,6 +228,7 @@ VOP(ar_host)
 
 VOP(ar_svc)
 {
+	l_ArTouched = true;
 	std::ostringstream o;
 	std::string h = HexDec(a.str("h")), n = HexDec(a.str("n"));
 	o << "object Service " << ArParser::Quote(n) << " {\n  host_name = " << ArParser::Quote(h) << "\n  check_command = \"arcc\"\n";
@@ -236,6 +243,7 @@ static const char *ArKindName(long k) { return k == 0 ? "Service" : k == 1 ? "No
 // ar_rule kind= to=host|svc name=<id> a=<E> [a2=<E>] [i=<E>] [i2=<E>] [fk=<id> [fv=<id>] ft=<E>] [use=id:E,id:E] [body=E;E] [parent=<hex>]
 VOP(ar_rule)
 {
+	l_ArTouched = true;
 	long kind = a.num("kind");
 	std::string name = a.str("name");
 	ArRuleLine rl; rl.name = name;
@@ -355,6 +363,7 @@ static std::string ArPreamble()
 
 VOP(ar_load)
 {
+	l_ArTouched = true;
 	for (int w = 0; w < 2; w++) {
 		const char *tag = w ? "w" : "p";
 		ArReset();
@@ -373,6 +382,7 @@ VOP(ar_load)
 // ar_api to=host|svc f=<E> [fv=id:E,id:E]     (against the objects of the last load)
 VOP(ar_api)
 {
+	l_ArTouched = true;
 	bool svc = a.str("to") == "svc";
 	std::string res[2];
 	bool fast = false;
